@@ -109,6 +109,7 @@ pub fn generate(prop: &str, master: u64, index: u64, thorough: bool, ctx: &mut R
     let cfg = plan.cfg.clone();
     let mut trace = Trace { cfg: cfg.clone(), steps: Vec::new() };
     log_line(ctx, &format!("cfg {}", cfg.to_json().to_string()));
+    crate::instr::registry_reset();
     let mut world = match make_world(&cfg, Some(&mut r)) {
         Ok(w) => w,
         Err(e) => return (trace, Outcome::Inconclusive(e)),
@@ -140,7 +141,11 @@ pub fn generate(prop: &str, master: u64, index: u64, thorough: bool, ctx: &mut R
             Err(Stop::Inconclusive(m)) => return (trace, Outcome::Inconclusive(m)),
         }
     }
-    ctx.stats.add("sim.final_clock", 0);
+    drop(world);
+    if let Some(f) = double_drop_at_end(&cfg) {
+        let at = trace.steps.len().saturating_sub(1);
+        return (trace, Outcome::Fail(f, at));
+    }
     (trace, Outcome::Pass)
 }
 
@@ -188,6 +193,7 @@ pub fn replay(trace: &Trace, ctx: &mut RunCtx) -> (Outcome, Vec<Step>) {
 fn replay_inner(trace: &Trace, ctx: &mut RunCtx) -> (Outcome, Vec<Step>) {
     let mut executed = Vec::new();
     log_line(ctx, &format!("cfg {}", trace.cfg.to_json().to_string()));
+    crate::instr::registry_reset();
     let mut world = match make_world(&trace.cfg, None) {
         Ok(w) => w,
         Err(e) => return (Outcome::Inconclusive(e), executed),
@@ -212,7 +218,33 @@ fn replay_inner(trace: &Trace, ctx: &mut RunCtx) -> (Outcome, Vec<Step>) {
             Err(Stop::Inconclusive(m)) => return (Outcome::Inconclusive(m), executed),
         }
     }
+    drop(world);
+    if let Some(f) = double_drop_at_end(&trace.cfg) {
+        let at = executed.len().saturating_sub(1);
+        return (Outcome::Fail(f, at), executed);
+    }
     (Outcome::Pass, executed)
+}
+
+/// Dropping the collection drops every value it still holds: a value that is
+/// dropped there for the second time was duplicated bitwise earlier.
+fn double_drop_at_end(cfg: &Cfg) -> Option<Failure> {
+    let (k, id) = crate::instr::take_double_drop()?;
+    if !cfg.has(O_OGET | O_CRASH) {
+        return None;
+    }
+    Some(Failure {
+        oracle: "value",
+        coll: match cfg.world {
+            WorldKind::Map => "MapTree",
+            WorldKind::Set => "SetTree",
+            _ => "?",
+        },
+        opkind: "drop",
+        class: "invariant",
+        tag: "stored value dropped twice".into(),
+        detail: format!("dropping the collection dropped a value inserted for key {} (identity {}) a second time: it was duplicated bitwise instead of cloned (double free for heap values)", k, id),
+    })
 }
 
 pub struct RunReport {
